@@ -42,7 +42,7 @@ namespace plan
     op.name = name;
     const int K = 8;
     if (name == "class")
-      op.a = {static_cast<long>(r.below(4)), static_cast<long>(r.below(3)), static_cast<long>(r.below(5))};
+      op.a = {static_cast<long>(r.below(4)), static_cast<long>(r.below(3)), static_cast<long>(r.below(5)), static_cast<long>(r.chance(1, 3) ? 1 : 0)};
     else if (name == "inst")
     {
       op.a.push_back(static_cast<long>(r.below(6)));
@@ -84,7 +84,7 @@ namespace plan
       op.a.push_back(static_cast<long>(r.below(8)));
     }
     else if (name == "oeq")
-      op.a = {static_cast<long>(r.below(2)), static_cast<long>(r.below(16)), static_cast<long>(r.below(16)), static_cast<long>(r.below(8))};
+      op.a = {static_cast<long>(r.below(2)), static_cast<long>(r.below(16)), static_cast<long>(r.below(16)), static_cast<long>(r.below(8)), static_cast<long>(r.below(2))};
     else if (name == "eeq")
       op.a = {static_cast<long>(r.below(2)), static_cast<long>(r.below(4)), static_cast<long>(r.below(6)), static_cast<long>(r.below(8))};
     else if (name == "pred")
@@ -110,9 +110,11 @@ namespace plan
     }
     else if (name == "goal" || name == "fact")
     {
-      op.a = {static_cast<long>(r.below(8)), static_cast<long>(r.below(4))};
+      op.a = {static_cast<long>(r.below(8)), static_cast<long>(r.below(42))}; // (scope / 7) % 3 == 0: an object variable as scope, when there is one
       g_args(r, op, K);
     }
+    else if (name == "spred")
+      op.a = {static_cast<long>(r.below(4)), static_cast<long>(r.below(2))};
     else if (name == "cut")
       op.a = {static_cast<long>(r.below(2))};
     else if (name == "svclass")
@@ -230,7 +232,18 @@ namespace plan
       ops.push_back(g_op(g, "real"));
     for (int i = 0, n = static_cast<int>(sw.range(0, 3)); i < n; ++i)
       ops.push_back(g_op(g, "bool"));
-    if (objects)
+    bool twin_fields = false;
+    if (objects && (prop == "C17" || prop == "C01") && sw.chance(1, prop == "C17" ? 4 : 10))
+    { // a class with two object fields of the same class, a few instances of both, variables over it: `v.g1 != v.h1`
+      twin_fields = true;
+      Op c0, c1;
+      c0.name = c1.name = "class";
+      c0.a = {0, static_cast<long>(g.below(2)), 0, 0};
+      c1.a = {0, static_cast<long>(g.below(2)), 2, 1};
+      ops.push_back(c0);
+      ops.push_back(c1);
+    }
+    else if (objects)
     {
       for (int i = 0, n = static_cast<int>(sw.range(1, 3)); i < n; ++i)
         ops.push_back(g_op(g, "class"));
@@ -238,8 +251,35 @@ namespace plan
         for (int i = 0, n = static_cast<int>(sw.range(1, 3)); i < n; ++i)
           ops.push_back(g_op(g, "enumt"));
     }
+    if (twin_fields)
+    {
+      for (int i = 0, k = static_cast<int>(sw.range(2, 3)); i < k; ++i)
+      {
+        Op o = g_op(g, "inst");
+        o.a[0] = 0;
+        ops.push_back(o);
+      }
+      for (int i = 0, k = static_cast<int>(sw.range(2, 4)); i < k; ++i)
+      {
+        Op o = g_op(g, "inst");
+        o.a[0] = 1;
+        ops.push_back(o);
+      }
+      for (int i = 0, k = static_cast<int>(sw.range(1, 2)); i < k; ++i)
+      {
+        Op o = g_op(g, "ovar");
+        o.a[0] = 1;
+        ops.push_back(o);
+      }
+      for (int i = 0, k = static_cast<int>(sw.range(1, 3)); i < k; ++i)
+      {
+        Op o = g_op(g, "oeq");
+        o.a[4] = 1;
+        ops.push_back(o);
+      }
+    }
     bool class_preds = false;
-    if ((prop == "C06" && sw.chance(1, 2)) || (prop != "C06" && (causal || objects) && sw.chance(1, 6)))
+    if ((prop == "C06" && sw.chance(1, 2)) || (prop == "C03" && sw.chance(1, 3)) || (prop != "C06" && prop != "C03" && (causal || objects) && sw.chance(1, 6)))
     { // predicates (mostly temporal) declared inside a plain class, with an instance to put facts and goals on
       class_preds = true;
       if (!objects)
@@ -255,6 +295,10 @@ namespace plan
       int np = static_cast<int>(sw.range(1, 4));
       for (int i = 0; i < np; ++i)
         ops.push_back(g_op(g, prop == "C19" || (prop == "C06" && g.chance(2, 3)) ? "tpred" : "pred"));
+      // predicate inheritance: one or two predicates extending an earlier one (possibly a chain of depth two)
+      if (sw.chance(1, prop == "C06" ? 2 : 5))
+        for (int i = 0, k = static_cast<int>(sw.range(1, 2)); i < k; ++i)
+          ops.push_back(g_op(g, "spred"));
     }
     if (rr && !causal)
     { // resources used from inside rules: one or two temporal predicates whose rule places a Use fact
@@ -285,7 +329,9 @@ namespace plan
     {
       for (int i = 0; i < 3; ++i)
         ops.push_back(g_op(g, "inst"));
-      w.add("goal", 8), w.add("fact", 10), w.add("inst", 3);
+      for (int i = 0, k = static_cast<int>(sw.range(0, 2)); i < k; ++i)
+        ops.push_back(g_op(g, "ovar")); // scopes that the search has to decide
+      w.add("goal", 8), w.add("fact", 10), w.add("inst", 3), w.add("oeq", 2);
     }
     if (sv)
       ops.push_back(g_op(g, "svinst"));
